@@ -85,10 +85,10 @@ inline const std::vector<std::string>& mismatch_texts(int N) {
     static std::map<int, std::vector<std::string>> memo;
     auto it = memo.find(N);
     if (it != memo.end()) return it->second;
-    TreeEnum te; te.keys = {"a", "b", "zz"};
+    TreeEnum te; te.keys = {"a", "b", "zz"}; te.ordered_objects = true;   // every member order: an unknown member before, between and after the known ones
     te.leaves = {MV::null(), MV::boolean(true), MV::uint64(1), MV::int64(-1), MV::dbl(1.5), MV::str("x"), MV::str("1")};
     std::vector<std::string> v;
-    for (auto& m : te.upto(N)) { json j = from_mv<json>(m); std::string s; j.dump(s); v.push_back(s); }
+    for (auto& m : te.upto(N)) { jsoncons::ojson j = from_mv<jsoncons::ojson>(m); std::string s; j.dump(s); v.push_back(s); }
     return memo[N] = v;
 }
 template <class T>
